@@ -798,9 +798,9 @@ Lemma in_pkt_len w : rtcp_world_ok w -> lenZ (in_pkt w) = b_len (w_b w).
 Proof.
   intros (_ & _ & [H1 _] & _ & _ & H2). unfold in_pkt, lenZ in *. rewrite take_length. unfold zn. lia.
 Qed.
-Lemma St_init w :
+Lemma St_init w : b_oob (w_b w) = false ->
   St (b_len (w_b w)) (b_cap (w_b w)) (b_alias (w_b w)) (b_src (w_b w)) (b_dst (w_b w)) (w_s w) (eq (b_dst (w_b w))) w.
-Proof. intros. unfold St. repeat split. Qed.
+Proof. intros H. unfold St. repeat split. exact H. Qed.
 
 (* REFINEMENT, srtp_protect_rtcp, both alias modes *)
 Theorem protect_rtcp_refines w i st w' r :
@@ -818,7 +818,7 @@ Proof.
   destruct OK as ((_ & WL) & HO & HL & HC & HD & HS).
   pose proof (list_get_SP _ _ _ _ WL Hg) as Wst.
   pose proof (protect_rtcp_tri _ _ (b_alias (w_b w)) (b_src (w_b w)) _ (in_pkt w) HL HC HD eq_refl HLp
-                (w_s w) st Hg Wst i w (St_init w)) as T.
+                (w_s w) st Hg Wst i w (St_init w HO)) as T.
   rewrite E in T. destruct r as [l|s].
   - destruct T as (wire & A & B & Cc & Dd & Ee). split; [exact Dd|]. split; [exact Ee|]. exists wire. auto.
   - destruct T as (A & Dd & Ee). auto.
@@ -841,7 +841,7 @@ Proof.
   destruct OK as ((_ & WL) & HO & HL & HC & HD & HS).
   pose proof (list_get_SP _ _ _ _ WL Hg) as Wst.
   pose proof (unprotect_rtcp_tri _ _ (b_alias (w_b w)) (b_src (w_b w)) _ (in_pkt w) HL HC HD eq_refl HLp
-                (w_s w) st Hg Wst w (St_init w)) as T.
+                (w_s w) st Hg Wst w (St_init w HO)) as T.
   rewrite E in T. destruct r as [l|s].
   - destruct T as (out & A & B & Cc & Dd & Ee). split; [exact Dd|]. split; [exact Ee|]. exists out. auto.
   - destruct T as (A & Dd & Ee). auto.
@@ -882,7 +882,7 @@ Proof.
   destruct (rtcp_wire st k _ pkt) as [wr|] eqn:EW; [|discriminate].
   intros H. injection H as <- <-. exists k.
   split; [exact (cfg_sender_key _ _ _ _ Hc (sender_key_st_nth _ _ _ _ EK))|].
-  split; [reflexivity|]. apply Z.ltb_ge in E1. apply Z.leb_gt in ER. auto.
+  split; [exact EW|]. apply Z.ltb_ge in E1. apply Z.leb_gt in ER. auto.
 Qed.
 
 (* if srtp_protect_rtcp succeeds, the first l octets of the destination are rtcp_wire of the
